@@ -64,6 +64,21 @@ CLAIMED = {
               'The port found defect F29 (dangling reference accepted below a list schema), repaired by a fix: commit.'),
         note=COMMON_NOTE + 'The acceptance model is only as good as the Lean validation model it reuses; sets as constraints are outside the value universe.',
         design='§6 C04'),
+    'C05': dict(
+        technique='Lean 4 proof (frame theorem on a heap model of normalization: no pre-existing cell is written, induction over fuel and passes) + correspondence of the heap model (reified result, sharing map) + snapshot/identity oracle on the real objects',
+        text=('Model/Heap.lean replays normalization on a heap of mutable cells with the write targets of the code (copy at entry, '
+              'mapping[field] = ..., del mapping[field], the copy made by the keysrules pass, fresh containers from child results). '
+              'C05_frame: for every environment, schema, options, heap and document reference, every cell that existed before the call '
+              'is identical after it (unbounded depth/size); C05_fresh: the processed document is a cell allocated by the call; '
+              'C05_input_value: the deep value of every pre-existing reference is unchanged on a closed heap; C05_no_normalize: with '
+              'normalize=False the processed document is the input; C05_schema_kept: validate/validated/normalized leave the held schema. '
+              'Tie: port `alias` (reify(hnormalize) = real normalized document, no pre-existing cell written, result fresh, every '
+              'container the model says is shared with the input is the identical real object). The schema is a value in the model, so '
+              '"a handler writes into the schema / a registry entry / a default value" is decided by the oracle on the real objects: deep '
+              'snapshots and object identities of the caller document, dict(validator.schema) and the registry contents before/after '
+              'validate, validate(normalize=False), validated, normalized, inline and with registry references.'),
+        note=COMMON_NOTE + 'Which reference a rename/default/coerce write stores is reconstructed from the functional pass (the frame theorem does not depend on it; the port checks it). Schema-side immutability is oracle-decided, not a theorem.',
+        design='§6 C05'),
     'C06': dict(
         technique='Lean 4 proof (return conventions and decomposition on the API state machine) + correspondence of the state machine + oracle of the API relations',
         text=('On the Lean state machine of one validator instance (Model/Api.lean): C06_verdict (validate returns True iff no error is '
